@@ -56,14 +56,13 @@ Example ex_history_parked : history_handle (mkenv [str "q1"] false (str "normal"
 Proof. vm_compute. reflexivity. Qed.
 
 (* hypotheses of the theorems are satisfiable in non-trivial ways *)
-Example ex_cond_history : comp_cond generated_sites HHistory (mkenv [str "q1"] true (str "normal") true) = true.
+Example ex_cond_history : comp_cond HHistory (mkenv [str "q1"] true (str "normal") true) = true.
 Proof. reflexivity. Qed.
-Example ex_receipts_flag_present : receipts_unguarded [receipts_site] = true.
-Proof. vm_compute. reflexivity. Qed.
-Example ex_receipts_flag_absent : receipts_unguarded [] = false.
-Proof. reflexivity. Qed.
+(* <message>text<request xmlns='urn:xmpp:receipts'/></message>: panicked the pinned receipts handler *)
+Example ex_receipts_text_child : receipts_handle receipts_witness = [COk; CErr].
+Proof. exact receipts_witness_returns. Qed.
 Example ex_serve_script :
-  serve_may generated_sites
+  serve_may
     [[mkinv HHistory (mkenv [str "q1"] true (str "normal") true) (TChar []) [hist_msg]];
      [mkinv HCarbons env0 (TChar []) [mkrd [TStart msgn []; TChar (str "x"); TEnd msgn] TmEOF]]]
   = [Returned; Returned; Returned].
@@ -71,6 +70,3 @@ Proof. vm_compute. reflexivity. Qed.
 Example ex_helper : helper_or_function QItems = true.
 Proof. reflexivity. Qed.
 
-(* what the inventory says about the tree the check runs on (printed, no obligation) *)
-Definition receipts_unguarded_in_this_tree : bool := Eval vm_compute in receipts_unguarded generated_sites.
-Print receipts_unguarded_in_this_tree.
